@@ -214,12 +214,82 @@ def report_mismatches(ctx, results, what):
 
 
 # ---------------------------------------------------------------------------
-# C15 build half (wired later)
+# C15 build half
 # ---------------------------------------------------------------------------
 
 
-def c15_build(ctx):
-    ctx.note('build_half', 'not yet wired')
+def pl(xs):
+    return '[' + '; '.join('(%d, %d)' % (a, c) for a, c in xs) + ']'
+
+
+def pll(xs):
+    return '[' + '; '.join('(%d, %s)' % (a, nl(c)) for a, c in xs) + ']'
+
+
+def c15_build(ctx, ok, msg, proofs_ok):
+    ctx.trust('translator tools/translate/diff2coq.py (schedule._diff -> Gen/DiffGen.v, fail closed)',
+              *SCHED_TRUST[:2])
+    if not ok:
+        ctx.note('diff_translator', 'refused: ' + msg[-300:])
+        ctx.cov['discharged'] = 0
+    n = ctx.n(60, 600) if ok and proofs_ok else 600
+    cases = [{'seed': '%d:%d' % (ctx.seed, i), 'nalg': 5 + i % 4,
+              'mode': 'mixed' if i % 10 else ('none' if i % 20 else 'all')} for i in range(n)]
+    out = ctx.harness('drive_build.py', {'cases': cases})
+    results = out['cases']
+    nontriv = []
+    bad = None
+    for cs, r in zip(cases, results):
+        g = r['graph']
+        n_nodes = len(g['nodes'])
+        exp = set(r['expect_changed'])
+        if 0 < len(exp) < n_nodes:
+            nontriv.append(('build', cs['seed']))
+        # oracle on the implementation: scheduled exactly the changed ones
+        for y in range(n_nodes):
+            want = ([0] if g['nodes'][y]['fac'] == 1 else list(range(1, len(g['tnames'])))) if y in exp else []
+            if r['obs']['nodes'][y][0] != sorted(want) or r['obs']['nodes'][y][1] or (y in r['obs']['que']) != (y in exp):
+                ctx.violation('build-not-exact', {'node': 'changed' if y in exp else 'unchanged'},
+                              'after build node %s (changed=%s) has todo %s, in queue=%s'
+                              % (g['tags'][y], y in exp, r['obs']['nodes'][y][0], y in r['obs']['que']),
+                              {'source': 'oracle', 'desc': r['desc'], 'latest': r['latest'],
+                               'previous': r['previous'], 'theorem': 'C15_build_exact'})
+                bad = True
+    ctx.count(evaluations=len(results), nontrivial_keys=nontriv)
+    ctx.note('build_cases', len(results))
+    if results:
+        ctx.sample({'build_case': {'tags': results[0]['graph']['tags'], 'latest': results[0]['latest'],
+                                   'previous': results[0]['previous'], 'queue_after': results[0]['obs']['que']}})
+    if not ok:
+        if not bad:
+            ctx.broken('translator diff2coq.py refuses schedule._diff', msg, {'source': 'translator'})
+        return
+    exprs = []
+    for r in results:
+        T = r['tables']
+        tt = ('{| cur_alg := %s; cur_sv := %s; cur_v := %s; per_alg := %s; per_sv := %s; per_v := %s; '
+              'own_sv := %s; own_v := %s |}' % (pl(T['cur_alg']), pl(T['cur_sv']), pl(T['cur_v']),
+                                               pll(T['per_alg']), pll(T['per_sv']), pll(T['per_v']),
+                                               pl(T['own_sv']), pl(T['own_v'])))
+        c = cfg_term(r['graph'])
+        exprs.append('let s := build_versions %s %s %s (init %s) in (que s, map (fun n => (todo n, doing n)) (ns s))'
+                     % (c, tt, nl(r['obs']['que']), c))
+    try:
+        vals = ctx.coq_eval(['DV.Model.Sched', 'DV.Model.Build'], exprs, z_scope=False, chunk=40)
+    except core.CoqEvalError as e:
+        if not bad:
+            ctx.broken('model evaluation of build_versions failed (generated DiffGen.v does not compile?)',
+                       str(e.args[-1])[-2000:], {'source': 'correspondence'})
+        return
+    for cs, r, (que, nodes) in zip(cases, results, vals):
+        m_nodes = [[sorted(td), sorted(dg)] for td, dg in nodes]
+        i_nodes = [[n[0], n[1]] for n in r['obs']['nodes']]
+        if que != r['obs']['que'] or m_nodes != i_nodes:
+            if not bad:
+                ctx.broken('correspondence build: model Build.v/DiffGen.v and schedule.build disagree',
+                           'seed=%s impl que=%s nodes=%s model que=%s nodes=%s' % (cs['seed'], r['obs']['que'], i_nodes, que, m_nodes),
+                           {'source': 'correspondence', 'desc': r['desc'], 'latest': r['latest'], 'previous': r['previous']})
+            return
 
 
 # ---------------------------------------------------------------------------
